@@ -66,6 +66,7 @@ type c10Delivery struct {
 // c10Deliver sends one BranchRollback for b and waits for the attempt to end.
 func c10Deliver(env *atEnv, b *faketc.Branch) c10Delivery {
 	d := c10Delivery{Branch: b.ID, Status: -1}
+	t0 := time.Now()
 	s := env.w.TC.WaitSession(b.Resource, 3*time.Second)
 	if s == nil {
 		s = env.w.TC.WaitSession("", time.Second)
@@ -83,6 +84,11 @@ func c10Deliver(env *atEnv, b *faketc.Branch) c10Delivery {
 		d.Status = m.I("branchStatus")
 	}
 	d.RespSeq = env.w.Clock.Now()
+	if osGetenv("VERIF_VERBOSE") != "" {
+		if el := time.Since(t0); el > 2*time.Second {
+			fmt.Printf("SLOW delivery branch=%d status=%d %v\n", b.ID, d.Status, el)
+		}
+	}
 	return d
 }
 
